@@ -134,8 +134,12 @@ static std::string check_ct(const KV &c) {
     if (prim == P_MAC_VERIFY_GOOD || prim == P_MAC_VERIFY_BAD) { ascon_mac(mactag.data(), msg.data(), mlen, key.data()); if (prim == P_MAC_VERIFY_BAD) mactag[(pos / 8) % 16] ^= (uint8_t)(1u << (pos % 8)); }
 
     unsigned before = VALGRIND_COUNT_ERRORS;
-    {
-        Sec k(key), m(msg), hk(hkey);
+    // every primitive runs twice in a row with different secrets of the same public shape: anything the library
+    // remembers from one call to the next (a cache, a memo) is secret-derived when the second call meets it
+    for (int rep = 0; rep < 2; ++rep) {
+        Bytes key_r = key, msg_r = msg, hkey_r = hkey;
+        if (rep) { for (auto &b : key_r) b ^= 0x5c; for (auto &b : msg_r) b ^= 0x36; for (auto &b : hkey_r) b ^= 0x5c; }
+        Sec k(key_r), m(msg_r), hk(hkey_r);
         Pubb cpub(ct);
         size_t len = 0;
         int rc = 0;
